@@ -14,7 +14,7 @@
    formatted bounds.
    Float facts are Section hypotheses: FL1 (v == 0.0 + v numerically), FL3 fragments (0.0 < 0.0 is false; < is
    transitive; a < b implies b != a), FL4 (integer-valued doubles below 2^53 add exactly, stated on fcount). *)
-From V Require Import lib.PyBase model.Metrics model.Equiv proofs.EquivProofs proofs.EquivHistProofs.
+From V Require Import lib.PyBase model.Metrics model.Equiv proofs.EquivProofs proofs.EquivHistProofs proofs.EquivLeProofs.
 From V Require model.Multiproc model.Values.
 From Coq Require Import Permutation.
 Open Scope N_scope.
@@ -210,6 +210,24 @@ Example C12_example :
   /\ length (m_reg Z (tmem ex_metas ex_fams ex_ops)) = 3%nat.
 Proof.
   split; [exact toy_wf|split; [exact toy_calls|split; [exact t_FL1|split; [exact t_FLT_zero|split; [exact t_FLT_pos|]]]]].
+  vm_compute. repeat split.
+Qed.
+
+(* a USER label named le is inside the domain on every type but Histogram (keys_wf excludes le for histograms only - the
+   library reserves the name there and nowhere else): Counter('c',['le']), Summary('s',['z','le']) and
+   Gauge('g',['le'], multiprocess_mode='sum') with le values float() rejects ("abc") and two spellings of one number
+   ("1", "1.0") satisfy the hypotheses of C12_equiv, and both sides compute to the same series: three counter series
+   c_total{le=abc} 7, {le=1} 3, {le=1.0} 4 (kept apart, none dropped); s_count 1, s_sum 6; g{le=0.5} 8, g{le=abc} 9 *)
+Import ToyLe.
+Example C12_example_user_le_label :
+  wf_reg Z 0%Z tfmt le_metas le_fams /\ Forall (call_ok Z 0%Z Z.ltb) le_ops
+  /\ map snd (tnorm_mem le_metas le_fams le_ops 0) = [7%Z; 3%Z; 4%Z] /\ map snd (tnorm_mp le_metas le_fams le_ops 0) = [7%Z; 3%Z; 4%Z]
+  /\ map snd (tnorm_mem le_metas le_fams le_ops 1) = [1%Z; 6%Z] /\ map snd (tnorm_mp le_metas le_fams le_ops 1) = [1%Z; 6%Z]
+  /\ map snd (tnorm_mem le_metas le_fams le_ops 2) = [8%Z; 9%Z] /\ map snd (tnorm_mp le_metas le_fams le_ops 2) = [8%Z; 9%Z]
+  /\ map (fun kv => snd (fst kv)) (tnorm_mp le_metas le_fams le_ops 0)
+     = [[(Multiproc.S_le, s2l "abc")]; [(Multiproc.S_le, s2l "1")]; [(Multiproc.S_le, s2l "1.0")]].
+Proof.
+  split; [exact le_wf|split; [exact le_calls|]].
   vm_compute. repeat split.
 Qed.
 
